@@ -29,7 +29,7 @@ Theorem C09_faults_every_truncation : forall (V : Type) (d : V) (rd : repr -> V 
   (k < announced fl)%nat ->
   is_ok (decode d rd (mkFile (f_v2 fl) (f_meshunit fl) (f_base fl) (f_nodes fl) (f_step fl) (f_min fl)
                        (f_max fl) (f_valuedim fl) (f_labels fl) (f_units fl) (f_rep fl) (f_check fl)
-                       (firstn k (f_payload fl)) (f_tail_ok fl)) side) = false.
+                       (firstn k (f_payload fl)) (f_cols fl) (f_tail_ok fl)) side) = false.
 Proof. exact every_truncation_rejected. Qed.
 Print Assumptions C09_faults_every_truncation.
 
